@@ -32,6 +32,9 @@ def _streams():
         "greedy_z3probe": props.G_Z3, "greedy_preemptprobe": props.G_PRE, "greedy_side": props.G_SIDE,
         "chaos_side": props.CH_SIDE, "plan_f0": props.PLAN_F0, "plan_ilp_goodput": props.PLAN_ILP_GOODPUT,
         "greedy_dyn": props.G_DYN, "chaos_dyn": props.CH_DYN, "cplex_batch": props.CW_CPLEX_BATCH,
+        "greedy_loader": props.G_LOADER, "greedy_side_heavy": props.G_SIDE_HEAVY, "greedy_stagger": props.G_STAGGER,
+        "chaos_side2": props.CH_SIDE2, "greedy_cond_out": props.G_COND_OUT, "greedy_ids": props.G_IDS,
+        "clockwork_slo": props.CW_SLO, "greedy_z3_inf": props.G_Z3_INF,
     }
 
 
